@@ -27,7 +27,7 @@ TRUSTED = ["PAG.copy / remove_edge / orient_uncertain_edge, ADMG.add_edge taken 
            "(valid_mag_spec, markov_equivb, structure_ok) called from harness/c09.py"]
 ASSUMPTIONS = ["at most one of the ten edge kinds per node pair (simple marks)", "default edge-type names", "int labels (C15)"]
 IMPL_TIMEOUT = 20
-SPOT_N = 10
+SPOT_N = 6
 VERDICTS = ["structure", "acyclic", "no-almost-directed-cycle", "unshielded-colliders-marked", "valid-mag", "markov-equivalent",
             "hypothesis:pag-invariants(pag_hypsb)", "hypothesis:rounds-extendable(rounds_ok_small_b, components with <= 8 o-o edges)"]
 
@@ -271,31 +271,113 @@ def _full_model(case):
     return case["mode"] == 1 and len(case["g"]["V"]) <= 6
 
 
+def unit_cases(tier, rng):
+    """UNIT level (flavour J): the four Meek rule helpers of algorithms/pag.py that pag_to_mag's closure uses, called directly on
+    a CPDAG for every PDAG(n) n<=4 (cyclic directed layers included) x every ordered pair (i, j), and on random 5-6 node PDAGs;
+    expected = the corresponding rule of the proved model (C08 r1..r4 guarded by i - j), through run_case mode 5"""
+    for n in range(2, 5):
+        for g in gr.enum_pdag(n, acyclic=False):
+            if g["U"]:
+                yield {"kind": "unit%d" % n, "g": g, "mode": 5,
+                       "pairs": [[a, b] for a in g["V"] for b in g["V"] if a != b]}
+    for i in range(250 if tier == "quick" else 2500):
+        n = rng.randint(5, 6)
+        g = gr.random_kinds_graph(rng, n, gr.PDAG_KINDS, p_edge=rng.choice([0.5, 0.7, 0.9]))
+        vs = list(g["V"])
+        rng.shuffle(vs)
+        g = dict(g, V=vs)
+        prs = [[a, b] for a, b in g["U"]] + [[b, a] for a, b in g["U"]]
+        if prs:
+            yield {"kind": "unit-rand", "g": g, "mode": 5, "pairs": prs}
+
+
+def big_chordal_cases(tier, rng):
+    """flavour L: all-circle PAGs on DENSE connected chordal skeletons with 7-10 nodes, several insertion orders / labelings each;
+    judged by the four cheap verdicts (structure, acyclic, no almost directed cycle, no new unshielded collider)"""
+    for i in range(36 if tier == "quick" else 300):
+        n = rng.randint(7, 10)
+        edges, nb = [], {0: set()}
+        for v in range(1, n):
+            u = rng.randrange(v)
+            clique = [u]
+            for w in rng.sample(sorted(nb[u]), len(nb[u])):
+                if rng.random() < 0.85 and all(w in nb[c] for c in clique):
+                    clique.append(w)
+            nb[v] = set(clique)
+            for c in clique:
+                nb[c].add(v)
+                edges.append((c, v))
+        for r in range(3):
+            perm = list(range(n))
+            rng.shuffle(perm)
+            es = [(perm[a], perm[b]) for a, b in edges]
+            rng.shuffle(es)
+            c = {"kind": "bigchordal%d" % n, "g": gr.G(range(n), C=[e for a, b in es for e in ((a, b), (b, a))]), "mode": 6,
+                 "_order": rng.randrange(1000)}
+            if r == 1:
+                c["labmap"] = rng.sample(range(1000), n)
+            yield c
+
+
 def gen_cases(tier, rng):
     """exhaustive streams in their order; the structured / repeat / marked streams interleaved (the 6-7 node components cost
     far more oracle time than the rest: interleaving spreads them over the worker chunks)"""
     head, tail = [], []
     for c in _gen_cases(tier, rng):
         (head if c["kind"].startswith(("pagofmag", "marks")) else tail).append(c)
+    for c in unit_cases(tier, rng):
+        (tail if c["kind"] == "unit-rand" else head).append(c)
+    tail.extend(big_chordal_cases(tier, rng))
     rng.shuffle(tail)
     yield from head
     yield from tail
 
 
 def encode(case):
+    if case["mode"] == 5:
+        return [5, gr.enc(case["g"]), case["pairs"]]
     if _full_model(case):
         return [1, gr.enc(case["g"]), gr.enc(case["mag"])]
     return [0, gr.enc(case["g"])]
 
 
 def decode(case, v):
+    if case["mode"] == 5:
+        return {"unit": [[bool(x) for x in row] for row in v], "verdicts": [True]}
     if _full_model(case):
         return {"m": _graph(v[0]), "verdicts": [bool(x) for x in v[1]] + [bool(x) for x in v[2]]}
     return {"m": _graph(v[0]), "verdicts": [bool(v[1])]}
 
 
+def run_unit(case):
+    from pywhy_graphs.algorithms import pag as pagmod
+    rules = [pagmod._meek_rule1, pagmod._meek_rule2, pagmod._meek_rule3, pagmod._meek_rule4]
+    g = case["g"]
+    P0, lab, inv = gr.to_cpdag(g, case)
+    base = gr.from_mixed(P0, inv)
+    und = {tuple(sorted(e)) for e in g["U"]}
+    out, graph_ok = [], True
+    for i, j in case["pairs"]:
+        row = []
+        for rule in rules:
+            Q = P0.copy() if tuple(sorted((i, j))) in und else P0
+            fired = bool(rule(Q, lab(i), lab(j)))
+            row.append(fired)
+            h = gr.from_mixed(Q, inv)
+            if fired:
+                exp_D = sorted(base["D"] + [[i, j]])
+                exp_U = [e for e in base["U"] if e != sorted((i, j))]
+                graph_ok = graph_ok and h["D"] == exp_D and h["U"] == exp_U and h["V"] == base["V"]
+            else:
+                graph_ok = graph_ok and h == base
+        out.append(row)
+    return {"unit": out, "graph_ok": graph_ok, "mutated": False, "verdicts": [True]}
+
+
 def run_impl(case):
     from pywhy_graphs.algorithms.pag import pag_to_mag
+    if case["mode"] == 5:
+        return run_unit(case)
     lm = case.get("labmap")
     g = gr.relabel(case["g"], lambda v: lm[v]) if lm else case["g"]
     back = {x: v for v, x in enumerate(lm)} if lm else None
@@ -338,6 +420,8 @@ def run_impl(case):
         return {"m": h, "mutated": mutated, "verdicts": [False], "extra_layers": h["X"]}
     if case["mode"] == 1:
         v = _oracle([sxmod.dumps([2, gr.enc(case["g"]), gr.enc(case["mag"]), gr.enc(h)])])[0][0]
+    elif case["mode"] == 6:
+        v = _oracle([sxmod.dumps([6, gr.enc(case["g"]), gr.enc(h)])])[0]
     else:
         v = _oracle([sxmod.dumps([4, gr.enc(case["g"]), gr.enc(h)])])[0]
     return {"m": h, "mutated": mutated, "verdicts": [bool(x) for x in v]}
@@ -350,6 +434,12 @@ def compare(case, impl, model):
         return "exception:" + impl["exc"]
     if impl["mutated"]:
         return "argument-mutated"
+    if case["mode"] == 5:
+        for (i, j), ri, rm in zip(case["pairs"], impl["unit"], model["unit"]):
+            for k in range(4):
+                if ri[k] != rm[k]:
+                    return "unit:_meek_rule%d:%s" % (k + 1, "fires-where-the-proved-rule-does-not" if ri[k] else "misses")
+        return None if impl["graph_ok"] else "unit:result-graph"
     if not all(impl["verdicts"]):
         return "impl:" + VERDICTS[impl["verdicts"].index(False)]
     return None
@@ -360,15 +450,26 @@ def classify(case, impl, model):
 
 
 def nontrivial(case, model):
+    if case["mode"] == 5:
+        return any(any(r) for r in model["unit"])
     return bool(case["g"]["C"])
 
 
 def key(case):
-    return (gr.canon(case["g"]), case.get("rep"), gr.canon(case["g0"]) if "g0" in case else None, case.get("marks"),
-            case.get("_lab"))
+    return (gr.canon(case["g"]), case["mode"] == 5, case.get("rep"), gr.canon(case["g0"]) if "g0" in case else None,
+            case.get("marks"), case.get("_lab"), case.get("_order"))
 
 
 def shrink(case):
+    if case["mode"] == 5:
+        for pr in case["pairs"]:
+            if len(case["pairs"]) > 1:
+                yield dict(case, pairs=[pr])
+        for h in gr.shrink_graph(case["g"]):
+            prs = [pr for pr in case["pairs"] if pr[0] in h["V"] and pr[1] in h["V"]]
+            if prs:
+                yield dict(case, g=h, pairs=prs)
+        return
     if case["mode"] == 1 or "rep" in case:
         return
     for h in gr.shrink_graph(case["g"]):
